@@ -220,6 +220,39 @@ fn deep(src: &mut Src, st: &mut Stats, _env: &Env) -> CaseResult {
     check_text("deep", &text, &model, st)
 }
 
+/// Large documents (8..200 KiB) of records with multi-byte strings at every
+/// alignment: buffer boundaries in the printer / parser fall inside characters.
+fn large(src: &mut Src, st: &mut Stats, _env: &Env) -> CaseResult {
+    let target = match src.below(4) {
+        0 => 8_000 + src.below(1000),
+        1 => 16_000 + src.below(1000),
+        2 => 30_000 + src.below(40_000),
+        _ => 60_000 + src.below(140_000),
+    };
+    let pad = src.below(64);
+    let unit = *src.pick(&["é", "日本", "😀", "ß€", "a😀b", "\u{7f}é", "x"]);
+    let mut recs = vec![J::Str("p".repeat(pad))];
+    let mut size = pad + 4;
+    let mut i = 0i64;
+    while size < target {
+        let mut m = std::collections::BTreeMap::new();
+        let s: String = unit.repeat(1 + (i as usize % 7));
+        m.insert("id".to_string(), J::int(i));
+        m.insert("name".to_string(), J::Str(format!("{}{}", s, i)));
+        if i % 5 == 0 {
+            m.insert("v".to_string(), J::f(i as f64 / 8.0));
+        }
+        let j = J::Obj(m);
+        size += j.to_json().len() + 1;
+        recs.push(j);
+        i += 1;
+    }
+    let model = if src.flip() { J::Arr(recs) } else { J::Obj([("rows".to_string(), J::Arr(recs))].into_iter().collect()) };
+    let text = model.to_json();
+    st.class("large");
+    check_text("large", &text, &model, st)
+}
+
 pub fn property() -> Property {
     Property {
         id: "C08",
@@ -234,6 +267,7 @@ pub fn property() -> Property {
         subs: vec![
             Sub::Bytes(BytesSub { name: "documents", f: documents, max_len: 1500, quick: Budget { threads: 8, cases: 4000 }, thorough: Budget { threads: 16, cases: 200_000 }, keep_unreproducible: false }),
             Sub::Bytes(BytesSub { name: "scalars", f: scalars, max_len: 64, quick: Budget { threads: 8, cases: 10_000 }, thorough: Budget { threads: 16, cases: 1_000_000 }, keep_unreproducible: false }),
+            Sub::Bytes(BytesSub { name: "large", f: large, max_len: 16, quick: Budget { threads: 8, cases: 60 }, thorough: Budget { threads: 16, cases: 3000 }, keep_unreproducible: false }),
             Sub::Bytes(BytesSub { name: "deep", f: deep, max_len: 200, quick: Budget { threads: 4, cases: 1000 }, thorough: Budget { threads: 16, cases: 50_000 }, keep_unreproducible: false }),
         ],
     }
